@@ -60,6 +60,8 @@ structure SLOut (d : RState) (op : Op) (d' : RState) (o : Obs) : Prop where
         (o.status = .code 500 ∧ d.st.openFails = true ∧ r.kind ≠ some .notif)) ∧
       ∀ l ∈ o.log, l.sess = .e ∧ l.who = .tok r.user)
   nolog : op.req = none → o.log = []
+  stale : o.stale = []
+  notBody : ∀ n f, op ≠ .body n f
 
 theorem showSrv_stateless {s : State} (hsl : s.cfg.stateless = true) : ∀ n ∈ showSrv s, n = Name.e := by
   intro n hn
@@ -83,7 +85,11 @@ theorem slOut_of_mo {d d' : RState} {op : Op} {o : Obs} {mo : ROut} (hsl : d.st.
   simp only [replayOp, hmo, settle_stateless h2] at hop
   simp only [Option.some.injEq, Prod.mk.injEq] at hop
   obtain ⟨rfl, rfl⟩ := hop
-  refine ⟨h1, h2, h3, h4, by simp [showMap, h2], h5, showSrv_stateless (by rw [h1]; exact hsl), h6, h7, h8⟩
+  refine ⟨h1, h2, h3, h4, by simp [showMap, h2], h5, showSrv_stateless (by rw [h1]; exact hsl), h6, h7, h8,
+    by simp [showStale, h2], ?_⟩
+  intro n f hb
+  subst hb
+  simp [modelOp, hsl] at hmo
 
 theorem slOut {d d' : RState} {op : Op} {o : Obs} (hsl : d.st.cfg.stateless = true) (ht : d.st.tbl = [])
     (hop : replayOp d op = some (d', o)) : SLOut d op d' o := by
@@ -138,6 +144,10 @@ theorem slOut {d d' : RState} {op : Op} {o : Obs} (hsl : d.st.cfg.stateless = tr
             · intro l hl
               cases kind <;> simp [slLog] at hl <;> (try subst hl) <;> first | exact ⟨rfl, rfl⟩ | cases hl
   | postx u kind =>
+    simp [replayOp, modelOp, hsl] at hop
+  | postb ref u =>
+    simp [replayOp, modelOp, hsl] at hop
+  | body n fin =>
     simp [replayOp, modelOp, hsl] at hop
   | release k =>
     by_cases hno : (k = 0 || k > d.nslow || d.released.contains k) = true
@@ -195,6 +205,9 @@ theorem slOut {d d' : RState} {op : Op} {o : Obs} (hsl : d.st.cfg.stateless = tr
         | cls i =>
           apply key d.st [] d.pend (Or.inr rfl)
           simp only [modelOp]; rw [if_neg hno, hfind]; simp only [hpk]
+        | upl i n usr =>
+          apply key d.st [] d.pend (Or.inr rfl)
+          simp only [modelOp]; rw [if_neg hno, hfind]; simp only [hpk]
   | abandon k =>
     cases hfind : d.pend.find? (fun p => p.tag == Tag.p k) with
     | none =>
@@ -222,6 +235,9 @@ theorem slOut {d d' : RState} {op : Op} {o : Obs} (hsl : d.st.cfg.stateless = tr
         refine slOut_of_mo (mo := { st := d.st, status := .noop, pend := d.pend, nslow := d.nslow, nasync := d.nasync, released := d.released }) hsl ?_ rfl ht rfl rfl rfl (by intro f h; cases h) (by intro r h; cases h) (fun _ => rfl) hop
         simp only [modelOp, hfind, hpk]
       | cls i =>
+        refine slOut_of_mo (mo := { st := d.st, status := .noop, pend := d.pend, nslow := d.nslow, nasync := d.nasync, released := d.released }) hsl ?_ rfl ht rfl rfl rfl (by intro f h; cases h) (by intro r h; cases h) (fun _ => rfl) hop
+        simp only [modelOp, hfind, hpk]
+      | upl i n usr =>
         refine slOut_of_mo (mo := { st := d.st, status := .noop, pend := d.pend, nslow := d.nslow, nasync := d.nasync, released := d.released }) hsl ?_ rfl ht rfl rfl rfl (by intro f h; cases h) (by intro r h; cases h) (fun _ => rfl) hop
         simp only [modelOp, hfind, hpk]
   | get ref u =>
